@@ -67,6 +67,18 @@ func (c03) Gen(r *sim.Rand, c *sim.Case, tier string) {
 	g.HFOncePerKind, g.RectTablesOnly, g.WellFormedMath, g.NoTableTemplates = true, true, true, true
 	g.MaxRows, g.MaxCols = r.Range(2, 5), r.Range(2, 5)
 	ops := g.DocOps(0, r.Range(4, 35))
+	if r.Bool() {
+		// the document is saved while it is being built (an autosave): what is saved at the end must be what it would
+		// have been without those saves
+		var withSaves []sim.Op
+		for _, op := range ops {
+			withSaves = append(withSaves, op)
+			if r.Chance(0.15) {
+				withSaves = append(withSaves, sim.Op{K: "save", I: []int{r.Intn(2)}})
+			}
+		}
+		ops = withSaves
+	}
 	n := r.Range(1, 4)
 	for i := 0; i < n; i++ {
 		ops = append(ops, sim.Op{K: "c3.cycle", I: []int{r.Intn(2), r.Intn(3)}})
@@ -145,6 +157,44 @@ func (c03) Exec(c *sim.Case, env *Env) []sim.Violation {
 				return viol // C01's business
 			}
 			env.Log.Event("save0 %s", inspectHashLines(prevC.Summary()))
+			// (0) saves made while the document was built are transparent: the same calls without them give the same package
+			nsaves := 0
+			for _, bop := range c.Tasks[0] {
+				if bop.K == "save" {
+					nsaves++
+				}
+			}
+			if nsaves > 0 {
+				document.VerifResetProcessState()
+				wb := world.New(sim.NewStats(), &sim.Log{}, dir)
+				wb.FilePrefix = "ref"
+				for _, bop := range c.Tasks[0] {
+					if bop.K == "c3.cycle" {
+						break
+					}
+					if bop.K != "save" {
+						if o := wb.Apply(bop); o.Panic != "" {
+							return viol
+						}
+					}
+				}
+				var refB []byte
+				if _, pn := Guard(func() { refB, err = wb.Serialize(wb.Doc(0), op.Int(0)) }); !pn && err == nil {
+					if refC, cerr := CanonPackage(refB); cerr == nil {
+						// (the styles part is left out: once written it is never regenerated - finding styles-frozen-after-serialisation of C13)
+						delete(refC.Digest, "word/styles.xml")
+						was, had := prevC.Digest["word/styles.xml"]
+						delete(prevC.Digest, "word/styles.xml")
+						if sg, det := PkgDiff(refC, prevC); sg != "" {
+							add("save-not-transparent", sg, fmt.Sprintf("the document saved %d time(s) while it was built differs from the same calls without those saves: %s", nsaves, det))
+						}
+						if had {
+							prevC.Digest["word/styles.xml"] = was
+						}
+						env.Stats.Probe("save_transparency_compared")
+					}
+				}
+			}
 		}
 		// ---- restart: open the previous bytes, save again
 		var d2 *document.Document
